@@ -239,6 +239,8 @@ class Run:
                     rows.append((a, v))
         self.ev.cov["variant_lines_identical_to_BASH_64"] = same
         bad = self.judge(rows, "record")
+        badset = set(bad)
+        self.good_rel = [r for i, (r, v) in enumerate(rows) if v == "rel" and i not in badset]
         self.lines_validated += same
         self.distinct |= set(key_of(r, v) for r, v in rows)
         ops = {}
@@ -253,7 +255,9 @@ class Run:
         return rel
 
     def selftest_lines(self, rel):
-        """Binding: corrupt one recorded field of one line per kind; TLC must flag exactly those."""
+        """Binding: corrupt one recorded field of one line per kind (among the lines TLC accepted);
+        TLC must flag exactly those."""
+        rel = getattr(self, "good_rel", rel)
         mut = []
         def pick(op, pred=lambda r: True):
             for r in rel:
